@@ -47,6 +47,7 @@ def run(ck, fb):
     r05j(ck, fb)
     r05k(ck, fb)
     r05m(ck, fb)
+    r05n(ck, fb)
     ck.borrow('rules.c01', {'R01v': 'R05l'}, 'the catalogue record carries every saved node address and member, whatever else the record says')
     ck.borrow('rules.c08', {'R08b': 'R05f'}, 'membership/addresses of an installed snapshot reach the index file')
 
@@ -534,3 +535,27 @@ def r05m(ck, fb, R='R05m'):
                    '%s removes entries from the catalogue (%s): an address / member that an earlier, acknowledged save stored and no later save '
                    'replaced is gone' % (fn, sorted(set(s0.callee.split('::')[-1] for s0 in bad))), 'assign / insert only')
     ck.floor(R, 'catalogue writers', n, 6)
+
+
+def r05n(ck, fb, R='R05n'):
+    ck.rule(R, '"every later read - after any number of restarts - returns that membership and address, until a later save replaces them": the index '
+               'file is the durable home of the membership and the node addresses, and a start-up is not a save. The start-up replay '
+               '(RaftDataHandler::load_log, run for every entry between the snapshot and last_applied_log) reaches no send of '
+               'RaftIndexRequest::SaveMember / AddNodeAddr: each applied entry wrote its value before the last_applied_log that makes the replay '
+               'reach it, so the file already holds the newest value; re-saving the old entries takes the file - and what raft reads from it, since '
+               'raft is built before the replay has finished - back through [1], [1,2], ... A kill in that window leaves a regressed membership: '
+               'with members [1] and a non-empty log the node elects itself leader of a one-node cluster')
+    b = ck.main('rnacos::raft::filestore::raftdata::RaftDataHandler::load_log', R)
+    if not b:
+        return
+    reg = util.region(fb, b, 2)
+    n = sum(len(util.sends(x)) for x in reg)
+    ck.floor(R, 'actor sends on the replay path', n, 8)
+    bad = [(x, s0, v0) for x in reg for (s0, m0, v0, a0) in util.sends(x, r'RaftIndexRequest$') if v0 in ('SaveMember', 'AddNodeAddr', 'SaveHardState')]
+    for (x, s0, v0) in bad:
+        ck.bad(R, 'load_log:replay-writes-catalogue:%s' % v0, s0.where(),
+               'the start-up replay sends RaftIndexRequest::%s for a historical log entry: during every start the index file goes back through the whole '
+               'membership / address history; a kill after replayed entry 2 of 7 leaves members [1] on disk although {1,2,3} had been saved and '
+               'acknowledged before the restart' % v0)
+    if not bad:
+        ck.ok(R, 'load_log:no-catalogue-writes', b.where(), '%d sends, none to the membership / address record' % n)
